@@ -31,6 +31,8 @@ func c14Class(err error) string {
 		return "EExported"
 	case strings.Contains(s, "must be a function"):
 		return "ENotFunc"
+	case strings.Contains(s, "must not be variadic"):
+		return "EVariadic"
 	case strings.Contains(s, "is not supported for goverter:update signatures"):
 		return "EUpdateSig"
 	case strings.Contains(s, "must exist when using"):
@@ -61,13 +63,14 @@ type c14Case struct {
 	AllowTP  bool   `json:"allow_generic"`
 	Exported bool   `json:"exported"`
 	IsFunc   bool   `json:"is_func"`
+	Variadic bool   `json:"variadic"`
 	Named    bool   `json:"named_params"`
 }
 
 // c14Oracle: the property, stated directly. Returns (accept, roles, returnsError).
 func c14Oracle(c c14Case) (bool, []string, bool) {
-	if !c.Exported || !c.IsFunc {
-		return false, nil, false
+	if !c.Exported || !c.IsFunc || c.Variadic {
+		return false, nil, false // variadic functions cannot be called with one source value: rejected
 	}
 	var roles []string
 	nsrc, upd := 0, false
@@ -167,6 +170,9 @@ func runC14(cfg runCfg) {
 			if !c.Named && k == 3 {
 				name = "" // unnamed plain parameter
 			}
+			if c.Variadic && i == len(c.Kinds)-1 {
+				t = types.NewSlice(t)
+			}
 			vars = append(vars, types.NewVar(token.NoPos, c14Pkg, name, t))
 			coqParams = append(coqParams, fmt.Sprintf("P %s %s %s", coqBool(k == 0), coqBool(k == 1 && c.UpdReq), coqBool(k == 2)))
 		}
@@ -185,7 +191,7 @@ func runC14(cfg runCfg) {
 		if c.TP {
 			tparams = []*types.TypeParam{types.NewTypeParam(types.NewTypeName(token.NoPos, c14Pkg, "X", nil), types.NewInterfaceType(nil, nil))}
 		}
-		sig := types.NewSignatureType(nil, nil, tparams, types.NewTuple(vars...), types.NewTuple(res...), false)
+		sig := types.NewSignatureType(nil, nil, tparams, types.NewTuple(vars...), types.NewTuple(res...), c.Variadic)
 		name := "Fn"
 		if !c.Exported {
 			name = "fn"
@@ -246,8 +252,8 @@ func runC14(cfg runCfg) {
 		if !cfg.oracleOnly {
 			fmt.Fprintf(casesF, "{\"id\":%d,\"replay\":{\"case\":%q}}\n", id, key)
 		}
-		w.add(fmt.Sprintf("(%d%%N, {| o_mode := %s; o_multi := %s; o_allow_tp := %s; o_update := %s |}, {| accessible := %s; is_func := %s; type_params := %s; params := [%s]; results := [%s] |}, %s)",
-			id, modeNames[c.Mode], coqBool(c.Multi), coqBool(c.AllowTP), coqBool(c.UpdReq), coqBool(c.Exported), coqBool(c.IsFunc), coqBool(c.TP && c.IsFunc),
+		w.add(fmt.Sprintf("(%d%%N, {| o_mode := %s; o_multi := %s; o_allow_tp := %s; o_update := %s |}, {| accessible := %s; is_func := %s; variadic := %s; type_params := %s; params := [%s]; results := [%s] |}, %s)",
+			id, modeNames[c.Mode], coqBool(c.Multi), coqBool(c.AllowTP), coqBool(c.UpdReq), coqBool(c.Exported), coqBool(c.IsFunc), coqBool(c.Variadic && c.IsFunc), coqBool(c.TP && c.IsFunc),
 			strings.Join(coqParams, ";"), strings.Join(coqRes, ";"), obs))
 		id++
 	}
@@ -278,6 +284,27 @@ func runC14(cfg runCfg) {
 								}
 							}
 						}
+					}
+				}
+			}
+		}
+	}
+	// variadic functions (the last parameter is a slice; kinds 1..3 for it)
+	for np := 1; np <= 2; np++ {
+		for code := 0; code < 1<<(2*np); code++ {
+			kinds := make([]int, np)
+			x := code
+			for i := 0; i < np; i++ {
+				kinds[i] = x % 4
+				x /= 4
+			}
+			if kinds[np-1] == 0 {
+				continue
+			}
+			for _, results := range [][]bool{{false}, {false, true}, {}, {true}} {
+				for mi := range modes {
+					for _, updReq := range []bool{false, true} {
+						run(c14Case{Kinds: kinds, Results: results, Mode: mi, UpdReq: updReq, Exported: true, IsFunc: true, Variadic: true, Named: true})
 					}
 				}
 			}
